@@ -18,7 +18,9 @@ RULE = ("triples of diagrams with 0..N points (N=60 quick, 300 thorough; sizes 0
         "every run have 100+ points per diagram — one independent, one related), coordinates from lattice/half/dyadic/decimal/"
         "uniform modes with duplicates and diagonal points, one power-of-two scale per triple; one triple in seven is 'large "
         "offset, tiny spread' (a diagram and two successive perturbations by delta, all translated by T = 1e3..1e6 feature "
-        "sizes, delta/T ~ 1e-8); every law of the statement is evaluated for both distances on each triple (an empty diagram of a triple is "
+        "sizes, delta/T ~ 1e-8); about one triple in six (8 of 60 in every quick run) carries 1-4 points with INFINITE death per diagram, at random rows, "
+        "with births that differ between the diagrams — the same non-zero number in all three, in two of them (each pair), different numbers, or in one "
+        "diagram only: both functions drop such points (C01/C02), so every law must hold with the values of the finite parts; every law of the statement is evaluated for both distances on each triple (an empty diagram of a triple is "
         "handed over in one of the five accepted forms, `vs_empty` uses all five; a quarter of the d(Y,X) evaluations get nested lists); non-trivial = at "
         "least two of the three diagrams have >= 3 points; distinct by digest of the triple.  Certified pairs: related and "
         "independent pairs of exactly m+n points, (6,6) (12,10) (30,30) (80,60) x3 and one (120,110) quick; x6 plus (150,150) "
@@ -33,6 +35,10 @@ ASSUMPTIONS = ["domain of the model-level laws (Props/C07Model.lean, `ProperDgm`
                "coordinates, so that 'large offset, tiny spread' triples (distances ~1e-8 of the offset) are checked to ~1e-6 of the value and "
                "not to 10-100% of it; the Wasserstein cost matrix is np.sqrt of summed squared coordinate differences (since /repo fix "
                "6c9bac1 — before it, sklearn's expanded formula needed 1e-6 and broke translation invariance at large offsets)",
+               "points with infinite death: dropped by both functions with a warning (clauses of C01/C02, proved for the models as C01.inf_dropped / "
+               "C02.inf_dropped; the model-level laws of Props/C07Model.lean are stated for raw point lists with non-finite deaths allowed).  The laws are "
+               "evaluated on diagrams containing such points with the closed forms (vs_empty) taken over the finite points; the warnings are "
+               "suppressed here — that they are raised is C01/C02's clause, not a law of this statement",
                "a law whose evaluation RAISES fails: the statement covers every diagram, the empty one included, in each form both functions "
                "accept on the unchanged tree (np.zeros((0,2)), [], np.array([]), [[]], np.array([[]])) — `vs_empty` is evaluated against all five, both orders",
                "certified pairs: bottleneck value within 1e-9*scale of the optimum certified by C01's cert.opt (bit-exact on these lattice/half/dyadic "
@@ -141,6 +147,8 @@ def eval_laws(name, X, Y, Z, ing, ctx=None, out=None):
     law("symmetric", lambda: abs(dxy - dyx) <= tol(dxy))
     law("nonneg_finite", lambda: dxy >= 0 and dyz >= 0 and dxz >= 0 and all(map(math.isfinite, (dxy, dyz, dxz))))
     law("triangle", lambda: dxz <= dxy + dyz + tol(dxy + dyz))
+    if "triangle" in bad:
+        notes.setdefault("triangle", "d(X,Z) = %r > d(X,Y) + d(Y,Z) = %r + %r" % (dxz, dxy, dyz))
     if len(X):
         perm = fx[np.random.RandomState(ing["perm_seed"]).permutation(len(X))]
         law("reorder_zero", lambda: f(fx, perm) <= tol(0.0))
@@ -151,16 +159,20 @@ def eval_laws(name, X, Y, Z, ing, ctx=None, out=None):
     law("translate_along_diagonal", lambda: abs(f(fx + t, fy + t) - dxy) <= tol(dxy) * 4)
     lam = ing["lam"]
     law("scales_linearly", lambda: abs(f(fx * lam, fy * lam) - lam * dxy) <= tol(dxy) * lam)
-    pers = fx[:, 1] - fx[:, 0] if len(X) else np.zeros(0)
-    want = (pers.max() / 2 if len(X) else 0.0) if name == "bn" else pers.sum() / math.sqrt(2)
+    def closed_form(g):
+        """value against the empty diagram: max persistence / 2 resp. total persistence / sqrt 2 of the points that count
+        (a point with infinite death is dropped by both functions — C01/C02 — so it contributes nothing)"""
+        g = g[np.isfinite(g[:, 1])] if len(g) else g
+        p = g[:, 1] - g[:, 0] if len(g) else np.zeros(0)
+        return (p.max() / 2 if len(p) else 0.0) if name == "bn" else p.sum() / math.sqrt(2)
+    want = closed_form(fx) if len(X) else 0.0
 
     def vs_empty():                            # against the empty diagram in EVERY accepted form, both orders
         for n_form, (label, mk) in enumerate(EMPTY_FORMS):
             g_, w_ = fx, want
             if n_form and len(X) > 25:          # the other ways of writing "no points": on the first 25 points (cost)
                 g_ = fx[:25]
-                p_ = g_[:, 1] - g_[:, 0]
-                w_ = p_.max() / 2 if name == "bn" else p_.sum() / math.sqrt(2)
+                w_ = closed_form(g_)
             for v in (f(g_, mk()), f(mk(), g_)):
                 if not abs(v - w_) <= tol(w_):
                     notes["vs_empty"] = "against %s: %r, expected %r" % (label, float(v), float(w_))
@@ -168,7 +180,13 @@ def eval_laws(name, X, Y, Z, ing, ctx=None, out=None):
         return True
     law("vs_empty", vs_empty)
     if name == "ws":
-        law("bottleneck_le_wasserstein", lambda: bnf(ax, ay) <= dxy + tol(dxy))
+        def bn_le_ws():
+            b = float(bnf(ax, ay))
+            if not b <= dxy + tol(dxy):
+                notes["bottleneck_le_wasserstein"] = "bottleneck(X,Y) = %r > wasserstein(X,Y) = %r" % (b, dxy)
+                return False
+            return True
+        law("bottleneck_le_wasserstein", bn_le_ws)
     if out is not None:
         out.update(notes)
     return bad
@@ -207,6 +225,40 @@ def derive(ctx, X, mode):
             continue
         else:
             out.append(list(p)); out.append(ctx.gen.bar(mode, allow_diag=True))
+    return out
+
+
+ESSENTIAL_PATTERNS = ("same_count_all", "same_count_XY", "same_count_XZ", "same_count_YZ", "different_counts", "one_side_only")
+
+
+def add_essential(ctx, X, Y, Z, mode, pattern):
+    """points with INFINITE death (essential classes) put into the diagrams of a triple, at random rows: `pattern` says
+    which diagrams get the same non-zero number of them (1..3) and which a different number (possibly none); births are
+    births of finite points of the triple, fresh coordinates of the triple's mode, or those moved out by up to 8 feature
+    sizes — different in different diagrams.  Both functions drop such points (C01/C02), so every law of the statement
+    still has to hold on these diagrams, with the values of the finite parts."""
+    r = ctx.rng
+    k = r.choice([1, 1, 2, 3])
+    other = lambda: r.choice([c for c in (0, 0, 1, 2, 3, 4) if c != k])
+    counts = {"same_count_all": (k, k, k), "same_count_XY": (k, k, other()), "same_count_XZ": (k, other(), k),
+              "same_count_YZ": (other(), k, k), "different_counts": tuple(r.sample([0, 1, 2, 3, 4], 3)),
+              "one_side_only": tuple(r.sample([k, 0, 0], 3))}[pattern]
+    births = [p[0] for D in (X, Y, Z) for p in D]
+    feat = max([1.0] + [abs(b) for b in births])
+
+    def birth():
+        u = r.random()
+        if births and u < 0.3:
+            return r.choice(births)
+        if u < 0.7:
+            return ctx.gen.coord(mode) if not births or feat < 100 else r.choice(births) + ctx.gen.coord(mode)
+        return (r.choice(births) if births else 0.0) + r.choice([-1, 1]) * r.choice([0.5, 2.0, 8.0]) * r.uniform(0.2, 1.0) * feat
+    out = []
+    for D, c in zip((X, Y, Z), counts):
+        D = [list(p) for p in D]
+        for _ in range(c):
+            D.insert(r.randint(0, len(D)), [birth(), math.inf])
+        out.append(D)
     return out
 
 
@@ -255,9 +307,14 @@ def run(ctx):
                 if r.random() < 0.5:
                     X, Y, Z = Y, X, Z               # X and Z both derived from the middle one
                 ctx.count("triples_related")
+            if it % 7 in (2, 5) and it > 1 and (it % 7 == 5 or r.random() < 0.15):
+                # about one triple in six (8 of 60 always): points with infinite death in the diagrams
+                pattern = ESSENTIAL_PATTERNS[(it // 7) % len(ESSENTIAL_PATTERNS)] if it % 7 == 5 else r.choice(ESSENTIAL_PATTERNS)
+                X, Y, Z = add_essential(ctx, X, Y, Z, mode, pattern)
+                ctx.count("triples_with_infinite_death_points"); ctx.count("infinite_death:" + pattern)
             X, Y, Z = ([[a * g, b * g] for a, b in D] for D in (X, Y, Z))
             ctx.count("scale=2^%d" % int(math.log2(g)))
-            nontriv = sum(len(d) >= 3 for d in (X, Y, Z)) >= 2
+            nontriv = sum(sum(math.isfinite(p[1]) for p in d) >= 3 for d in (X, Y, Z)) >= 2
             ctx.case({"X": X[:4], "Y": Y[:4], "Z": Z[:4], "sizes": [len(X), len(Y), len(Z)]}, nontriv, sample_every=13)
             ctx.count("size<=%d" % (10 ** len(str(max(len(X), len(Y), len(Z), 1)))))
             scale = max(common.maxabs(X), common.maxabs(Y), common.maxabs(Z), 1e-300)
@@ -450,7 +507,8 @@ MANIFEST = {
             "points — up to 120+110 in the quick tier, 150+150 in the thorough tier — against certified optima (bottleneck: cert.opt, exact; "
             "Wasserstein: dual certificate of the model's matrix verified by cert.dual), and the laws are run on the real code on triples "
             "(60 quick, of up to 60 points plus two triples of 100+ points per diagram; 120 thorough, up to 300 points), including 'large "
-            "offset, tiny spread' triples, under several hash seeds.",
+            "offset, tiny spread' triples and triples whose diagrams contain points with infinite death (equal and different numbers of them across the "
+            "three diagrams, different births: they are dropped, so every law must still hold), under several hash seeds.",
     "note": "Trusted: Lean kernel + Mathlib (propext/Classical.choice/Quot.sound); C01/C02 for 'code value = specification value' "
             "(external solvers hopcroftkarp / scipy LSA are contracts certified per run there; re-certified here at the large sizes); float "
             "rounding is outside the theorems ([T] law stream with stated tolerances: min(1e-9*largest |coordinate|*k, 1e-9*|value| + 32 eps*largest "
